@@ -486,8 +486,8 @@ class C14(Check):
             'calls; (b) same seed: 4 models (fan-in, two sources merging into one machine, maintenance with failures, shared '
             'resource) x seeds 0..7 x asset-id offsets 0/1/7 x 2 repetitions, real RNG, compared after id '
             'normalisation; two fresh interpreters with different PYTHONHASHSEED; (c) simulate_multiple_times: n=1..4 x '
-            'max_processes 0/1/2/3/None with a controllable executor completing the futures in every permutation, result i = '
-            'system of index i = in-process result; real process pools for n=3 as conformance only')
+            'max_processes 0/1/2/3/None with a controllable executor completing the futures in every permutation (n=12: '
+            'submission order, reverse and two rotations only), result i = system of index i = in-process result; real process pools for n=3 as conformance only')
     level_text = ('Exhaustive over split points, tie-break orders and executor completion orders within the stated bounds; the '
                   'same-seed clause is an enumerated grid of real runs (seeds are data, not schedules: every seed cannot be '
                   'enumerated); scheduling of real OS worker processes cannot be enumerated by this technique and is only sampled.')
@@ -508,11 +508,15 @@ class C14(Check):
                                             S.MAINT(K + 1, n=1, horizon=4), S.SCHED_BLOCK(K), S.SENS(K, horizon=4))]
         if th:
             specs += [S.with_splits(S.FAN(1), 2), S.with_splits(S.RES(1, horizon=4), 2)]
-        jobs = _line_jobs(specs, ['splitinv', 'census', 'shutdown', 'cycle', 'schedule', 'sensors'], tier)
+        jobs = _line_jobs(specs, ['splitinv', 'census', 'shutdown', 'cycle', 'schedule', 'sensors'], tier, e2q=20, e2t=60)
+        # a model that has gone quiet: every terminal path is replayed through real consecutive simulate() calls
+        jobs += _line_jobs([S.with_splits(S.QUIET(K)), S.with_splits(S.QUIET(0), 2)], ['splitinv', 'census', 'cycle'], tier,
+                           e2q=400, e2t=2000)
         seeds = list(range(8 if not th else 24))
         for model in ('fan', 'merge', 'maint', 'res'):
             jobs.append(repro_job(f'SEED[{model}]', 'seed', model, seeds=seeds, offsets=[0, 1, 7], horizon=8))
             jobs.append(repro_job(f'SMT[{model}]', 'smt', model, ns=[1, 2, 3, 4], max_processes=[0, 1, 2, 3, None], horizon=6))
+        jobs.append(repro_job('SMT12[merge]', 'smt', 'merge', ns=[12], max_processes=[0, 2], horizon=4))
         jobs.append(repro_job('HASH[merge]', 'hash', 'merge', seeds=[3], hashseeds=[1, 2, 77], horizon=8))
         jobs.append(repro_job('HASH[maint]', 'hash', 'maint', seeds=[3], hashseeds=[1, 2], horizon=8))
         jobs.append(repro_job('POOL[merge]', 'pool', 'merge', ns=[3], max_processes=[1, 2, None] if th else [2], horizon=6))
